@@ -269,14 +269,15 @@ Proof.
     step_cases H. intros c0. pose proof (HA c0) as HA0. unfold ind in *. cbn in *. exact HA0.
 Qed.
 
-(** ... and conversely: the lock is held only by a thread inside a locked region (every way out
-    of one — success, error, crash — releases it) *)
+(** ... and conversely, as long as no Unlock fails: the lock is held only by a thread inside a
+    locked region (every way out of one — success, error, crash — releases it) *)
 Definition I_held (s : state) : Prop :=
   forall t, lock s = Some t -> holds_lock_pc (pcof s t) = true.
 
-Lemma I_held_step s l s' : I_lock s -> I_held s -> step s l = Some s' -> I_held s'.
+Lemma I_held_step s l s' :
+  I_lock s -> I_held s -> step s l = Some s' -> unlock_fault s l = false -> I_held s'.
 Proof.
-  intros HI HH H. step_cases H; pc_tests; intros t0 Ht0; cbn in *; crash_norm; cbn in *; upd_all; cbn in *;
+  intros HI HH H Hu. unfold unlock_fault in Hu. step_cases H; rewrite ?Heqp in Hu; try discriminate Hu; pc_tests; intros t0 Ht0; cbn in *; crash_norm; cbn in *; upd_all; cbn in *;
     bool_cases; res_cases; cbn in *;
     try discriminate; try reflexivity; try (apply HH; assumption); try congruence.
   all: try (injection Ht0 as <-; congruence).
@@ -442,6 +443,9 @@ Proof.
                          let Z := fresh in pose proof (Y u ltac:(congruence)) as Z; rewrite Hpc in Z; discriminate Z
                      end).
   all: try (lock_facts HI; congruence).
+  all: try (injection Hp0 as <-; eapply (Q3 t); [assumption|rewrite Heqp; reflexivity]).
+  all: try (injection Hp0 as <-;
+            split; [apply Nat.eqb_eq; assumption|]; eapply (Q3 t); [assumption|rewrite Heqp; reflexivity]).
   - (* StoreKey succeeds: the reg file already holds the same account *)
     injection Hk0 as <-. eapply Q1; [reflexivity|exact Heqp].
   - (* ... and nobody else is saving *)
@@ -452,10 +456,6 @@ Proof.
     pose proof (Y t eq_refl) as Z. rewrite Heqp in Z. discriminate Z.
   - exfalso. destruct (Q4 t0 m0 E0 Hp0) as [_ X]. destruct (Q2 _ X) as [_ Y].
     pose proof (Y t eq_refl) as Z. rewrite Heqp in Z. discriminate Z.
-  - injection Hp0 as <-. eapply (Q3 t); [assumption|rewrite Heqp; reflexivity].
-  - injection Hp0 as <-.
-    split; [apply Nat.eqb_eq; assumption|].
-    eapply (Q3 t); [assumption|rewrite Heqp; reflexivity].
 Qed.
 
 (* ------------------------------------------------------------------ the invariant *)
@@ -532,21 +532,28 @@ Qed.
 
 (* ------------------------------------------------------------------ the lock is given back *)
 
-Lemma I_held_reachable s : reachable s -> I_held s.
+Lemma I_held_run ls : forall s s1,
+  Inv s -> I_held s -> run s ls = Some s1 -> unlock_faults s ls = 0 -> I_held s1.
 Proof.
-  intros Hr. cut (Inv s /\ I_held s); [tauto|]. revert s Hr. apply reachable_ind.
-  - split; [exact Inv_init|]. intros t H. cbn in H. discriminate.
-  - intros s l s1 _ [HI HH] Hs. split; [eapply Inv_step; eassumption|].
-    eapply I_held_step; [exact (inv_lock _ HI)|exact HH|exact Hs].
+  induction ls as [|l r IH]; intros s s1 HI HH Hr Hu; cbn in *.
+  - injection Hr as <-. exact HH.
+  - destruct (step s l) as [s2|] eqn:Es; [|discriminate].
+    destruct (unlock_fault s l) eqn:Eu; [discriminate|]. cbn in Hu.
+    apply (IH s2 s1); auto.
+    + eapply Inv_step; eassumption.
+    + eapply I_held_step; [exact (inv_lock _ HI)|exact HH|exact Es|exact Eu].
 Qed.
 
 (** when no issuance is in flight (every thread has finished — with a certificate, an error or
-    a crash — or has not started), the registration lock is free: no path through
-    newACMEClientWithAccount or deleteAccountLocallyIfCurrent leaks it *)
-Theorem lock_free_when_quiescent s :
-  reachable s -> (forall t, finished (pcof s t) = true) -> lock s = None.
+    a crash — or has not started) and no Unlock has failed, the registration lock is free: no
+    path through newACMEClientWithAccount or deleteAccountLocallyIfCurrent leaks it *)
+Theorem lock_free_when_quiescent ls s :
+  run init ls = Some s -> unlock_faults init ls = 0 ->
+  (forall t, finished (pcof s t) = true) -> lock s = None.
 Proof.
-  intros Hr Hq. destruct (lock s) as [t|] eqn:E; [|reflexivity].
-  pose proof (I_held_reachable _ Hr t E) as X. specialize (Hq t).
+  intros Hr Hu Hq. destruct (lock s) as [t|] eqn:E; [|reflexivity].
+  assert (HH : I_held s).
+  { eapply I_held_run; [exact Inv_init| |exact Hr|exact Hu]. intros t0 H. cbn in H. discriminate. }
+  pose proof (HH t E) as X. specialize (Hq t).
   destruct (pcof s t); cbn in *; discriminate.
 Qed.
